@@ -38,7 +38,7 @@ LevelQ == <<Zero, Half, One>>
 VecTexts(nE) == {[i \in 1..nE |-> Digit[v[i] + 1]] : v \in [1..nE -> 0..2]}
 ExpItems(nE) == [i \in 1..nE |-> Leaf(<<ENames[i]>>)]
 FormulaT(nE) == TLCEval([p \in {<<ENames[i]>> : i \in 1..nE} \X VecTexts(nE) |-> LevelQ[DigitIdx[p[2][EIdx[p[1][1]]]]]])
-FormulaMaxS == IF Quick THEN <<4, 4, 2>> ELSE <<6, 5, 3, 2>>
+FormulaMaxS == IF Quick THEN <<4, 4, 2>> ELSE <<6, 4, 3, 2>>
 FormulaProblems ==
   SetToSeqR({Prob(G(o, p, FALSE, FALSE, Comma, TableSub), "list", <<AL(ExpItems(nE), cr, TRUE)>>, <<>>, FormulaT(nE)) :
              o \in BOOLEAN, p \in BOOLEAN, cr \in {One, Half}, nE \in 1..Len(FormulaMaxS)})
@@ -48,7 +48,7 @@ FormulaSubs(P, first) == {<<first>> \o s : s \in SeqsBetween(FormulaItems(P), 0,
 (* ------------------------------------------------------------------------------------------ part "errors"
    Item counts and blank entries against every combination of the four flags.                                 *)
 ErrorsMaxE == IF Quick THEN 3 ELSE 4
-ErrorsMaxS == IF Quick THEN 3 ELSE 5
+ErrorsMaxS == IF Quick THEN 3 ELSE 4
 ErrorsT(nE) == TLCEval([p \in ({<<ENames[i]>> : i \in 1..nE} \X ({<<ENames[i]>> : i \in 1..nE} \cup {<<>>, <<"SP", "e1">>})) |->
                   IF p[1] = p[2] THEN One
                   ELSE IF p[1] = <<"e1">> /\ p[2] \in {<<>>, <<"SP", "e1">>} THEN Half ELSE Zero])
@@ -88,14 +88,14 @@ ListsProblems ==
   SetToSeqR({Prob(G(f[1], f[2], f[3], f[4], Comma, TableSub), "list", ListsAnswers[a], <<>>, ListsT) :
              f \in ListsFlags, a \in DOMAIN ListsAnswers})
 ListsItems == {Sa, Sb, Sc, Sd, Sh, Sab, Sx}
-ListsMaxS == IF Quick THEN 3 ELSE 5
+ListsMaxS == IF Quick THEN 3 ELSE 4
 ListsSubs(P, first) == {<<first>> \o s : s \in SeqsBetween(ListsItems, 0, ListsMaxS - 1)}
 
 (* ------------------------------------------------------------------------------------------ part "text"
    Raw submission texts: one- and two-symbol delimiters, answers given as lists, as a string, or inferred from
    the expect attribute.  Table: an item earns 1 if it is exactly the expected text, 1/2 if it differs only by
    surrounding spaces.                                                                                         *)
-TextMaxLen == IF Quick THEN 5 ELSE 7
+TextMaxLen(d) == IF Quick THEN 5 ELSE IF d = BarBar THEN 7 ELSE 6
 TextExpected(d) == IF d = BarBar THEN <<"a", "BAR", "BAR", "b">> ELSE <<"a", "COMMA", "SP", "b">>     \* the author's string
 TextAlphabet(d) == IF d = BarBar THEN {"a", "b", "BAR"} ELSE {"a", "b", "SP", "COMMA"}
 Spaced(t, n) == {[i \in 1..l |-> "SP"] \o t \o [i \in 1..r |-> "SP"] : l \in 0..n, r \in 0..n}
@@ -107,7 +107,7 @@ TextProblems ==
                   IF fl[3] = "list" THEN <<>> ELSE TextExpected(d), TextT(d)) :
              d \in {Comma, CommaSp, BarBar},
              fl \in ({FALSE} \X BOOLEAN \X {"list", "string", "expect"}) \cup ({TRUE} \X BOOLEAN \X {"list"})})
-TextSubs(P, first) == {<<first>> \o s : s \in SeqsBetween(TextAlphabet(P.g.delim), 0, TextMaxLen - 1)}
+TextSubs(P, first) == {<<first>> \o s : s \in SeqsBetween(TextAlphabet(P.g.delim), 0, TextMaxLen(P.g.delim) - 1)}
 
 (* ------------------------------------------------------------------------------------------ part "nested"
    One level of nesting: outer delimiter ";", inner delimiter ",".                                            *)
@@ -126,10 +126,10 @@ NestedFlags == IF Quick THEN {<<oo, io, op, TRUE, TRUE>> : oo \in BOOLEAN, io \i
 NestedProblems ==
   SetToSeqR({Prob(G(f[1], f[3], FALSE, f[5], Semi, G(f[2], f[4], FALSE, f[5], Comma, TableSub)), "list",
                   NestedAnswers[a], <<>>, NestedT) : f \in NestedFlags, a \in DOMAIN NestedAnswers})
-NestedLeaves == IF Quick THEN {Sa, Sb, Sc, <<>>} ELSE {Sa, Sb, Sc, Sd, Sh, Sx, <<>>}
+NestedLeaves == IF Quick THEN {Sa, Sb, Sc, <<>>} ELSE {Sa, Sb, Sc, Sd, Sh, <<>>}
 NestedInnerTexts == {Join(s, Comma) : s \in SeqsBetween(NestedLeaves, 1, 2)}
 NestedFew == {Join(s, Comma) : s \in IF Quick THEN {<<Sb, Sa>>, <<Sc, Sd>>, <<Sc>>, <<Sa, <<>>>>}
-                                       ELSE {<<Sa, Sb>>, <<Sb, Sa>>, <<Sc, Sd>>, <<Sc>>, <<Sa, Sx>>, <<Sa, <<>>>>}}
+                                       ELSE {<<Sb, Sa>>, <<Sc, Sd>>, <<Sc>>, <<Sa, Sx>>, <<Sa, <<>>>>}}
 NestedSubs(P, first) == {<<first>> \o s : s \in SeqsBetween(NestedInnerTexts, 0, 1)}
                         \cup {<<first>> \o s : s \in SeqsOfLen(NestedFew, 2)}
 
